@@ -71,6 +71,42 @@ def empty_returns(pdb, ctx, fn):
     return out
 
 
+def other_returns(pdb, ctx, fn):
+    """`return` statements of an arithmetic operator that are NOT empty-operand returns: a fast path keyed on anything else
+    (equal operands, a flag, a degree) replaces the definitional loop for some inputs and has to be justified separately."""
+    from .guards import facts as _facts
+
+    def _who(at):
+        if at[0] == "cmp" and at[1] == "==":
+            for k, C in ((0, CO0), (1, CO1)):
+                if {at[2], at[3]} == {LEN(C), num(0)}:
+                    return k
+        return None
+    out = []
+    for n in walk(fn["body"]):
+        if n.get("k") != "Ret" or any(a.get("k") == "Closure" for a in ancestors(n)):
+            continue
+        in_degree_arm = False
+        for a in ancestors(n):
+            if a.get("k") == "Match":
+                sc = strip(a["scrut"])
+                parts = sc["es"] if sc.get("k") == "Tup" else [sc]
+                if all(strip(x).get("k") == "MethodCall" and callee_path(strip(x)) == "%s::degree" % PT for x in parts):
+                    in_degree_arm = True
+        if in_degree_arm:
+            continue
+        emp = False
+        for f_ in _facts(ctx, n):
+            if f_[0] == "or":
+                if all(len(a_) == 1 and _who(a_[0]) is not None for a_ in f_[1]):
+                    emp = True
+            elif _who(f_) is not None:
+                emp = True
+        if not emp:
+            out.append(n)
+    return out
+
+
 def quantifier_form(ctx, fn, t):
     """('not-any' | 'all', V, (closure param var, closure body term)) for `!V.iter().any(cl)` / `V.iter().all(cl)`."""
     neg = False
@@ -113,6 +149,9 @@ def run(rep, pdb, tier):
         okr = er.get(0) == want0 and er.get(1) == P(0)
         rep.add("polarity/%s/empty-operands" % tr, "%s with an empty operand returns the other operand with the right sign (self empty: %s; rhs empty: self)" % (tr, "rhs" if sym == "+" else "-rhs"),
                 okr, fn["body"], "self empty -> %s; rhs empty -> %s" % (show(er.get(0), ctx) if er.get(0) else None, show(er.get(1), ctx) if er.get(1) else None), where=loc(fn["body"]))
+        oth = other_returns(pdb, ctx, fn)
+        rep.add("polarity/%s/no-other-return" % tr, "apart from the empty-operand cases every input of %s goes through the coefficient loop (no fast path keyed on anything else)" % tr,
+                not oth, oth[0] if oth else fn["body"], "other early returns: %d" % len(oth), where=loc(oth[0]) if oth else loc(fn["body"]))
         ok, det = len(sets) == 2, "element writes=%d" % len(sets)
         if ok:
             a, b = sets
@@ -417,8 +456,10 @@ def run(rep, pdb, tier):
         ctx = Ctx.for_fn(pdb, fn)
         tail = fn["body"].get("expr")
         t = ctx.term(tail) if tail is not None else None
-        ok = t == ("call", "%s::eval" % PT, ("call", "%s::derivative_n" % PT, P(0), P(2)), P(1))
-        rep.add("derivative_at", rule, ok, fn["body"], "%s" % (show(t, ctx) if t else None), where=loc(fn["body"]))
+        rets = [n for n in walk(fn["body"]) if n.get("k") == "Ret" and not any(a.get("k") == "Closure" for a in ancestors(n))]
+        ok = t == ("call", "%s::eval" % PT, ("call", "%s::derivative_n" % PT, P(0), P(2)), P(1)) and not rets
+        rep.add("derivative_at", rule + " on every path (a shortcut for short polynomials that ignores the order n returns 0 for the 0th derivative of a constant)", ok, rets[0] if rets else fn["body"],
+                "%s; early returns: %d" % (show(t, ctx) if t else None, len(rets)), where=loc(rets[0]) if rets else loc(fn["body"]))
     # ---- delegation
     from .c03 import rule_delegation
     n_del = rule_delegation(rep, pdb, ("src/polynomial/arithmetic.rs",))
